@@ -195,6 +195,11 @@ func genC16(seed uint64, idx int, tier string) *Scenario {
 		// the agent disconnects while connections are still open
 		sc.Params["disconnect_after"] = r.Range(1, 12)
 		sc.Faults = append(sc.Faults, "agent-disconnect")
+		if r.Chance(0.3) {
+			// the session ends because the agent sends a data message whose address names a protocol the listener
+			// does not know (neither tcp nor udp): the listener drops the session - every connection of it must end
+			sc.Params["bad_address"] = true
+		}
 	}
 	cj, _ := json.Marshal(conns)
 	var cl []interface{}
@@ -446,6 +451,13 @@ func runC16(t *testing.T, sc *Scenario) Result {
 			if discAfter > 0 && msgs >= discAfter {
 				ac.flush()
 				synctest.Wait()
+				if sc.ParamBool("bad_address") {
+					body, _ := agent.ReadWriteTCP{Laddr: tcpAddrOf("192.0.2.1:8022"), Raddr: tcpAddrOf("198.51.100.250:9"), Payload: []byte("x")}.MarshalBinary()
+					body[0] = 1 // protocol number of the first address: ICMP
+					ac.c.Write(append(frame(agent.TypeReadWriteTCP, body), body...))
+					synctest.Wait()
+					res.fault("agent-sends-unknown-address-protocol", 1)
+				}
 				ep.Close()
 				disconnected = true
 				res.fault("agent-disconnect", 1)
